@@ -169,6 +169,10 @@ pub struct LazyPlan {
     /// promises no common order
     #[serde(default)]
     pub names_order: u64,
+    /// class entries are handed out under names that do NOT end in `.class` (`x/Foo.classdata`): what an entry is, is
+    /// what `to_jar_entry_enum` says, not what its name looks like (an implementation that classifies by content)
+    #[serde(default)]
+    pub odd_names: bool,
 }
 
 impl LazyPlan {
@@ -181,7 +185,7 @@ impl LazyPlan {
         if read_fault.is_some() && z.chance(60) {
             fail_at.clear();
         }
-        LazyPlan { fail_at, sticky: z.chance(30), io: if z.chance(50) { IoPlan::gen_legal(z) } else { IoPlan::plain() }, read_fault, names_order: if z.chance(35) { z.next() | 1 } else { 0 } }
+        LazyPlan { fail_at, sticky: z.chance(30), io: if z.chance(50) { IoPlan::gen_legal(z) } else { IoPlan::plain() }, read_fault, names_order: if z.chance(35) { z.next() | 1 } else { 0 }, odd_names: false }
     }
     pub fn faults(&self) -> usize {
         self.fail_at.len() + self.read_fault.is_some() as usize
@@ -196,6 +200,9 @@ impl LazyPlan {
         }
         if self.read_fault.is_some() {
             c.push(LazyPlan { read_fault: None, ..self.clone() });
+        }
+        if self.odd_names {
+            c.push(LazyPlan { odd_names: false, ..self.clone() });
         }
         if self.names_order != 0 {
             c.push(LazyPlan { names_order: 0, ..self.clone() });
@@ -224,11 +231,20 @@ pub struct LazyJar {
     pub entries: Vec<(String, EntryData)>,
     pub plan: LazyPlan,
     pub state: Mutex<LazyState>,
+    /// the names the entries are handed out under
+    shown: Vec<String>,
 }
 
 impl LazyJar {
     pub fn new(entries: Vec<(String, EntryData)>, plan: &LazyPlan) -> LazyJar {
-        LazyJar { entries, plan: plan.clone(), state: Mutex::new(LazyState::default()) }
+        let shown = entries
+            .iter()
+            .map(|(n, d)| match (plan.odd_names, d, n.strip_suffix(".class")) {
+                (true, EntryData::File(_), Some(stem)) => format!("{stem}.classdata"),
+                _ => n.clone(),
+            })
+            .collect();
+        LazyJar { entries, plan: plan.clone(), state: Mutex::new(LazyState::default()), shown }
     }
     fn tick(&self, what: u64) -> Result<()> {
         let mut s = self.state.lock().unwrap_or_else(|e| e.into_inner());
@@ -262,6 +278,9 @@ impl LazyJar {
         }
         if self.plan.names_order != 0 {
             st.probe("lazyjar.names_in_another_order");
+        }
+        if self.plan.odd_names {
+            st.probe("lazyjar.class_entries_under_other_names");
         }
     }
 }
@@ -299,17 +318,17 @@ impl<'j> dukebox::storage::OpenedJar for LazyOpened<'j> {
         if self.0.plan.names_order != 0 {
             crate::rng::Rng::new(self.0.plan.names_order).shuffle(&mut idx);
         }
-        idx.into_iter().map(|i| (i, self.0.entries[i].0.as_str()))
+        idx.into_iter().map(|i| (i, self.0.shown[i].as_str()))
     }
     fn by_name(&mut self, name: &str) -> Result<Option<Self::Entry<'_>>> {
         self.0.tick(3)?;
-        Ok(self.0.entries.iter().position(|e| e.0 == name).map(|i| LazyEntry(self.0, i)))
+        Ok(self.0.shown.iter().position(|e| e == name).map(|i| LazyEntry(self.0, i)))
     }
 }
 
 impl<'j> dukebox::storage::JarEntry for LazyEntry<'j> {
     fn name(&self) -> &str {
-        &self.0.entries[self.1].0
+        &self.0.shown[self.1]
     }
     fn attrs(&self) -> dukebox::storage::BasicFileAttributes {
         dukebox::storage::BasicFileAttributes::default()
